@@ -21,7 +21,9 @@ pub fn inverse_gamma_lr<T: MomTropFloat>(
         epsilon_tolerance.to_f64(),
     );
 
-    if res.is_nan() {
+    // a quantile is a finite positive number: anything else (non-converged iterate, -0.0 from the
+    // exponential special case, overflow) is a failed draw
+    if res.is_nan() || res.is_infinite() || res <= 0.0 {
         Err(GammaError {})
     } else {
         Ok(a.from_f64(res))
